@@ -211,6 +211,7 @@ func runC19(tier string) int {
 	// group by input
 	byInput := make([]map[string]c19Witness, len(ins))
 	runs, permuted2, permuted3 := 0, 0, 0
+	chunkedRuns, concurrentRuns := 0, 0
 	siteHits := map[int]int{}
 	outcomesByClass := map[string]int{}
 	hangs := 0
@@ -235,6 +236,12 @@ func runC19(tier string) int {
 			}
 			if o.Res != nil {
 				for _, run := range o.Res.Runs {
+					if run.Fired.ShortReads > 0 {
+						chunkedRuns++
+					}
+					if run.Sched.Spawned > 0 {
+						concurrentRuns++
+					}
 					if run.Map.Ranges2 > 0 {
 						permuted2++
 					}
@@ -341,12 +348,12 @@ func runC19(tier string) int {
 			"hangs":                               hangs,
 			"runs_per_hour":                       perHour(runs, wall),
 			"simulated_time":                      "no clock in pigeon; logical time only (one run = one complete generation)",
-			"fault_kinds":                         map[string]int{"map_order_permutation": permuted2, "in_process_predecessor_builds": len(all) * 2},
+			"fault_kinds":                         map[string]int{"map_order_permutation": permuted2, "in_process_predecessor_builds": len(all) * 2, "runs_with_short_read_chunks": chunkedRuns, "runs_on_a_machine_drawn_from_the_seed": runs, "runs_with_a_second_build_at_the_same_time": concurrentRuns},
 			"inputs_with_divergent_runs":          violations,
 			"known_findings_seen":                 rep.known,
-			"components":                          map[string]any{"real": []string{"main.go", "pigeon.go (front-end)", "ast (optimizer)", "builder (left-recursion analysis, code generation)", "golang.org/x/tools/imports"}, "stub": []string{"os files/streams/exit (simos)", "map iteration order (simmap)"}},
+			"components":                          map[string]any{"real": []string{"main.go", "pigeon.go (front-end)", "ast (optimizer)", "builder (left-recursion analysis, code generation)", "golang.org/x/tools/imports"}, "stub": []string{"os files/streams/exit, environment reads (simos)", "map iteration order (simmap)", "goroutine choice and package sync for the second build of concurrent double builds (simtask)"}},
 		},
-		Assumptions: []string{"map iteration order is the only nondeterminism inside one generation (no time, randomness, goroutines or environment reads in main/ast/builder: checked by grep at design time)", "orders are sampled, not enumerated", "goimports (linked unmodified) is deterministic for a fixed module cache"},
+		Assumptions: []string{"map iteration order, read chunking, what the process is told about its machine and (for library use) another build at the same time are the nondeterminism a generation can meet; time, goroutines and environment reads of main/ast/builder are counted by the instrumenter (see scheduler_seam) and answered by the simulator", "orders are sampled, not enumerated", "goimports (linked unmodified) is deterministic for a fixed module cache"},
 	}
 	writeEvidence(ev)
 	code := rep.finish()
